@@ -437,6 +437,27 @@ def dag_oracle(state, kind, n, edges, avail=None, want_nvars=None):
 
 
 # ------------------------------------------------------------------ build
+def meddle_with_factory_graphs(n):
+    """another caller of the library, earlier in the same process: obtains graphs from the factory methods and edits
+    its own copies in place.  Nothing of that may show in a formula generated afterwards (seeded change C03-6)."""
+    from cnfgen.graphs import Graph
+    for k in {max(n, 0), max(n - 1, 0), n + 1 if n >= 0 else 1, 3}:
+        for make in (Graph.complete_graph, Graph.empty_graph, Graph.star_graph):
+            try:
+                H = make(k)
+            except Exception:
+                continue
+            try:
+                if H.number_of_edges() > 0:
+                    u, v = next(iter(H.edges()))
+                    H.remove_edge(u, v)
+                H.update_vertex_number(H.number_of_vertices() + 2)
+                H.add_edge(1, H.number_of_vertices())
+                H.name = "edited by its owner"
+            except Exception:
+                pass
+
+
 def build(suite, info):
     if suite not in SUITES:
         raise ValueError("unknown suite " + suite)
@@ -465,7 +486,11 @@ def build(suite, info):
         if suite == "o_op":
             n = int(info["n"])
             r = req("c03_op", cls_i, n, total, smart, plant, knuth)
-            impl = run(lambda: OrderingPrinciple(n, total=total, smart=smart, plant=plant, knuth=knuth, formula_class=fc))
+            def call_op():
+                if info.get("meddle"):
+                    meddle_with_factory_graphs(n)
+                return OrderingPrinciple(n, total=total, smart=smart, plant=plant, knuth=knuth, formula_class=fc)
+            impl = run(call_op)
             if n < 0:
                 return Case(suite, r, impl, None, cls=tag + ":rejected", nontrivial=False, info=info)
             edges = [(u, v) for u in range(1, n + 1) for v in range(u + 1, n + 1)]
@@ -626,6 +651,9 @@ def cases(ctx):
             infos.append(("o_op", dict(n=n, opb=False, **f)))
             if n <= 3:
                 infos.append(("o_op", dict(n=n, opb=True, **f)))
+    for n in range(2, 7):
+        for f in main_flags[:4]:
+            infos.append(("o_op", dict(n=n, opb=False, meddle=True, **f)))
     for n in (6, 7):
         for f in main_flags:
             infos.append(("o_op", dict(n=n, opb=(n == 6 and f["knuth"] == 0), **f)))
